@@ -99,7 +99,7 @@ def action(name, ppath, jid):
         import contextlib
         import io
         from signac.migration import apply_migrations
-        with contextlib.redirect_stdout(io.StringIO()):
+        with contextlib.redirect_stdout(io.StringIO()), contextlib.redirect_stderr(io.StringIO()):      # progress messages go to stderr
             apply_migrations(ppath)
         return
     p = signac.Project(ppath)
